@@ -120,7 +120,7 @@ def worker(chunk):
             # a failing collaborator: Sem does not describe it, and C14 / C19 speak of collaborators that do not raise
             infrag, why = False, 'cb_raise'
         viol = {}
-        want = item.get('monitors') or list(monitors.ALL)
+        want = item.get('monitors') or [m for m in monitors.ALL if m != 'C19strict']
         for pid in want:
             f = monitors.ALL.get(pid)
             if f is None:
@@ -146,6 +146,15 @@ def worker(chunk):
             elif not div:
                 div = {'why': 'the reference evaluator Sem does not solve the dataflow equations (Solution) on a plain '
                               'pipeline', 'at': -1}
+        if 'error' not in sem and sem.get('sw_hyp') and any(n['is_switch'] for n in tr['graph']['nodes']):
+            # switch-only pipelines: the hypotheses of the switch-safety theorems hold; Sem agrees with the eager solution
+            st = tr.setdefault('stats', {})
+            st['switch_only_programs'] = st.get('switch_only_programs', 0) + 1
+            if sem.get('sem_solves_sw'):
+                st['sem_is_switch_solution'] = st.get('sem_is_switch_solution', 0) + 1
+            elif not div:
+                div = {'why': 'the reference evaluator Sem disagrees with the eager solution of the dataflow equations with '
+                              'switches (SolutionSw) on a switch-only pipeline', 'at': -1}
         for pid in want:
             hyp = monitors.HYPOTHESES.get(pid)
             if hyp and not div:
